@@ -171,6 +171,26 @@ func c10R3(r *Run, li *c10LaxInfo) {
 			}
 		}
 	}
+	// what is still unmatched: the same site under X and under !(X) is the site without
+	// that conjunct (rules_t5c10.go), then matched once more
+	{
+		var nu, nf int
+		res.OnlyUp, nu = fdMergeComplementary(res.OnlyUp)
+		res.OnlyFork, nf = fdMergeComplementary(res.OnlyFork)
+		if nu+nf > 0 {
+			for i := range res.OnlyUp {
+				for j := range res.OnlyFork {
+					u, f := &res.OnlyUp[i], &res.OnlyFork[j]
+					if !u.match && !f.match && u.Fn == f.Fn && u.Text == f.Text {
+						u.match, f.match = true, true
+						matchedAfter++
+						break
+					}
+				}
+			}
+			r.Pass("complementary-sites", "-", fmt.Sprintf("%d pair(s) of unmatched sites with the same head under X and under !(X) read as the one site under the common conditions (upstream %d, fork %d)", nu+nf, nu, nf))
+		}
+	}
 	allowed := 0
 	type diff struct {
 		where string
@@ -338,6 +358,7 @@ func c10TypeVars(r *Run, renamed map[string]string) {
 type c10ItemAllow struct {
 	Name, Fn, Side string
 	Text           string // exact normal form of the item
+	Alt            string // the same item with the value held elsewhere (shares the entry's budget)
 	Max            int    // at most this many items of the function may use the entry
 	Class, Reason  string
 }
@@ -349,24 +370,24 @@ var c10ItemRewrites = []c10Rewrite{
 }
 
 var c10ItemAllows = []c10ItemAllow{
-	{"base128-leading-0x80", "parseBase128Int", "upstream", `cond ((0 == L1) ∧ (128 == P0[R1]))`, 1, "ACCEPTANCE", "condition of the minimality check the fork lacks (see drift:base128-leading-0x80:guard)"},
-	{"nil-target", "UnmarshalWithParams", "upstream", `cond (22 != reflect.ValueOf(P1).Kind())`, 1, "api-misuse", "condition of upstream's invalidUnmarshalError (see drift:nil-target:guard; one item per disjunct of a leaving `if a || b`)"},
-	{"nil-target", "UnmarshalWithParams", "upstream", `cond reflect.ValueOf(P1).IsNil()`, 1, "api-misuse", "same, second disjunct"},
-	{"set-of-sorting", "makeBody", "upstream", `cond P1.set`, 1, "marshal", "upstream chooses the sorting setEncoder for SET OF (see drift:set-of-sorting:guard)"},
-	{"set-type-name", "makeField", "upstream", `cond (!(P1.set) ∧ (17 == L1))`, 1, "marshal", "upstream (go1.15) turns on params.set for slice types named …SET so that they are sorted on marshal; the fork has no sorting, so nothing to turn on"},
-	{"set-type-name", "makeField", "upstream", `asgn P1.set = true`, 1, "marshal", "same"},
-	{"tag-parts-loop", "parseFieldParameters", "upstream", `asgn L1, P0, _ = strings.Cut(P0, ",")`, 1, "equivalent", "upstream advances through the tag string with strings.Cut, the fork ranges over strings.Split"},
-	{"lax-tag", "parseFieldParameters", "fork", `cond ("lax" == L1)`, 1, "documented", "the fork's \"lax\" tag part (C10.R1:tag-lax checks what it does)"},
-	{"err1-style", "parseField", "fork", `cond (L1 == nil)`, 3, "equivalent", "the fork stores through reflect only when the parse succeeded (OID, BIT STRING, time: `if err1 == nil { v.Set(…) }; err = err1`) where upstream assigns value and error in one statement; the error is returned either way (sites match)"},
-	{"error-text", "(StructuralError).Error", "fork", `cond ("" != RCV.Field)`, 1, "diagnostic", "the fork prefixes the field name"},
-	{"error-text", "(StructuralError).Error", "fork", `asgn L1 = (RCV.Field + ": ")`, 1, "diagnostic", "same"},
-	{"error-text", "(SyntaxError).Error", "fork", `cond ("" != RCV.Field)`, 1, "diagnostic", "same"},
-	{"error-text", "(SyntaxError).Error", "fork", `asgn L1 = (RCV.Field + ": ")`, 1, "diagnostic", "same"},
-	{"oid-string", "(ObjectIdentifier).String", "fork", `asgn R0 = (R0 + ".")`, 1, "equivalent", "string concatenation where upstream uses strings.Builder (its WriteByte/Write calls are allowed as sites)"},
-	{"oid-string", "(ObjectIdentifier).String", "fork", `asgn R0 = (R0 + strconv.FormatInt(int64(L1), 10))`, 1, "equivalent", "same (strconv.Itoa in the engine's one form of decimal formatting)"},
-	{"four-digits", "appendFourDigits", "fork", `cond range(L1)`, 1, "equivalent", "digit loop where upstream is unrolled (go1.20); marshal only"},
-	{"four-digits", "appendFourDigits", "fork", `asgn L1[(3 - L2)] = (48 + byte((P1 % 10)))`, 1, "equivalent", "same"},
-	{"four-digits", "appendFourDigits", "fork", `asgn P1 = (P1 / 10)`, 1, "equivalent", "same"},
+	{"base128-leading-0x80", "parseBase128Int", "upstream", `cond ((0 == L1) ∧ (128 == P0[R1]))`, "", 1, "ACCEPTANCE", "condition of the minimality check the fork lacks (see drift:base128-leading-0x80:guard)"},
+	{"nil-target", "UnmarshalWithParams", "upstream", `cond (22 != reflect.ValueOf(P1).Kind())`, "", 1, "api-misuse", "condition of upstream's invalidUnmarshalError (see drift:nil-target:guard; one item per disjunct of a leaving `if a || b`)"},
+	{"nil-target", "UnmarshalWithParams", "upstream", `cond reflect.ValueOf(P1).IsNil()`, "", 1, "api-misuse", "same, second disjunct"},
+	{"set-of-sorting", "makeBody", "upstream", `cond P1.set`, "", 1, "marshal", "upstream chooses the sorting setEncoder for SET OF (see drift:set-of-sorting:guard)"},
+	{"set-type-name", "makeField", "upstream", `cond (!(P1.set) ∧ (17 == L1))`, "", 1, "marshal", "upstream (go1.15) turns on params.set for slice types named …SET so that they are sorted on marshal; the fork has no sorting, so nothing to turn on"},
+	{"set-type-name", "makeField", "upstream", `asgn P1.set = true`, "", 1, "marshal", "same"},
+	{"tag-parts-loop", "parseFieldParameters", "upstream", `asgn L1, P0, _ = strings.Cut(P0, ",")`, "", 1, "equivalent", "upstream advances through the tag string with strings.Cut, the fork ranges over strings.Split"},
+	{"lax-tag", "parseFieldParameters", "fork", `cond ("lax" == L1)`, "", 1, "documented", "the fork's \"lax\" tag part (C10.R1:tag-lax checks what it does)"},
+	{"err1-style", "parseField", "fork", `cond (R1 == nil)`, `cond (L1 == nil)`, 3, "equivalent", "the fork stores through reflect only when the parse succeeded (OID, BIT STRING, time: `if err1 == nil { v.Set(…) }; err = err1`) where upstream assigns value and error in one statement; the error is returned either way (sites match, and a call whose error value reaches nothing would carry a note). R1: the error is held in the named result, directly or through a temporary copied to it (rules_t5c10.go); L1: in a temporary of another shape — the same three tests either way, one budget"},
+	{"error-text", "(StructuralError).Error", "fork", `cond ("" != RCV.Field)`, "", 1, "diagnostic", "the fork prefixes the field name"},
+	{"error-text", "(StructuralError).Error", "fork", `asgn L1 = (RCV.Field + ": ")`, "", 1, "diagnostic", "same"},
+	{"error-text", "(SyntaxError).Error", "fork", `cond ("" != RCV.Field)`, "", 1, "diagnostic", "same"},
+	{"error-text", "(SyntaxError).Error", "fork", `asgn L1 = (RCV.Field + ": ")`, "", 1, "diagnostic", "same"},
+	{"oid-string", "(ObjectIdentifier).String", "fork", `asgn R0 = (R0 + ".")`, "", 1, "equivalent", "string concatenation where upstream uses strings.Builder (its WriteByte/Write calls are allowed as sites)"},
+	{"oid-string", "(ObjectIdentifier).String", "fork", `asgn R0 = (R0 + strconv.FormatInt(int64(L1), 10))`, "", 1, "equivalent", "same (strconv.Itoa in the engine's one form of decimal formatting)"},
+	{"four-digits", "appendFourDigits", "fork", `cond range(L1)`, "", 1, "equivalent", "digit loop where upstream is unrolled (go1.20); marshal only"},
+	{"four-digits", "appendFourDigits", "fork", `asgn L1[(3 - L2)] = (48 + byte((P1 % 10)))`, "", 1, "equivalent", "same"},
+	{"four-digits", "appendFourDigits", "fork", `asgn P1 = (P1 / 10)`, "", 1, "equivalent", "same"},
 }
 
 func c10R3Items(r *Run, res *fdResult, upFset *token.FileSet) {
@@ -414,7 +435,7 @@ func c10R3Items(r *Run, res *fdResult, upFset *token.FileSet) {
 			return
 		}
 		for i, a := range c10ItemAllows {
-			if a.Fn == s.Fn && a.Side == side && a.Text == s.Text && budget[i] < a.Max {
+			if a.Fn == s.Fn && a.Side == side && (a.Text == s.Text || (a.Alt != "" && a.Alt == s.Text)) && budget[i] < a.Max {
 				budget[i]++
 				used[a.Name]++
 				names[a.Name] = [2]string{a.Class, a.Reason}
